@@ -124,6 +124,14 @@ func (k *Keeper) EthereumTx(goCtx context.Context, msg *evmtypes.MsgEthereumTx) 
 		return nil, errorsmod.Wrap(err, "failed to unmarshal receipt")
 	}
 	// supply the fields those are used in sdk event construction
+	{
+		// log index is a non-consensus field so it was not included in the marshalled receipt,
+		// logs are numbered consecutively across the whole block
+		logIndexStart := k.GetCumulativeLogCountTransient(ctx, true)
+		for i, log := range receipt.Logs {
+			log.Index = uint(logIndexStart) + uint(i)
+		}
+	}
 	receipt.TxHash = common.HexToHash(response.Hash)
 	if ethTx.To() == nil && !response.Failed() {
 		receipt.ContractAddress = crypto.CreateAddress(common.BytesToAddress(senderAccAddr), ethTx.Nonce())
